@@ -1,4 +1,4 @@
-package c04
+package vrun
 
 import (
 	"encoding/binary"
